@@ -91,6 +91,7 @@ def run(repo, rep, tier):
     _group_helpers(repo, rep)
     _text_visits(repo, rep)
     rebuilt_tokens(repo, rep)
+    _match_results_tested(repo, rep)
     _match_spans(repo, rep)
     _location(repo, rep)
     _census(repo, rep)
@@ -706,6 +707,60 @@ def _edited_upstream(repo, rep):
               construct="unescaped-before-ref:pipe",
               where=L.where(f, edits[0].lineno) if edits else L.where(f),
               detail="; ".join(src(n) for n in edits))
+
+
+def _match_results_tested(repo, rep):
+    """re.match / search / fullmatch answer None for text they do not
+    match -- and the text is the template's.  Every use of such a result
+    (an attribute of it, or passing it on) is preceded by a test of the
+    variable; a template that does not match must end in a TemplateError,
+    not in 'NoneType has no attribute ...'."""
+    n = 0
+    for q, f in sorted(repo.funcs.items()):
+        if f.module.name not in COMPILE_PATH:
+            continue
+        for a in ast.walk(f.node):
+            if not (isinstance(a, ast.Assign) and isinstance(
+                    a.value, ast.Call) and isinstance(
+                        a.value.func, ast.Attribute) and
+                    a.value.func.attr in ("match", "search", "fullmatch")
+                    and isinstance(a.targets[0], ast.Name)):
+                continue
+            v = a.targets[0].id
+            n += 1
+            tests = [t.test.lineno for t in ast.walk(f.node)
+                     if isinstance(t, (ast.If, ast.While, ast.IfExp,
+                                       ast.Assert))
+                     and any(isinstance(x, ast.Name) and x.id == v
+                             for x in ast.walk(t.test))]
+            rebind = [x.lineno for x in ast.walk(f.node)
+                      if isinstance(x, (ast.Assign, ast.For))
+                      and x.lineno > a.lineno and any(
+                          isinstance(y, ast.Name) and y.id == v and
+                          isinstance(y.ctx, ast.Store)
+                          for y in ast.walk(x.targets[0] if isinstance(
+                              x, ast.Assign) else x.target))]
+            end = min(rebind) if rebind else 10 ** 9
+            uses = sorted(
+                [x.lineno for x in ast.walk(f.node)
+                 if isinstance(x, ast.Attribute) and isinstance(
+                     x.value, ast.Name) and x.value.id == v
+                 and a.lineno < x.lineno <= end] +
+                [x.lineno for x in ast.walk(f.node)
+                 if isinstance(x, ast.Call) and any(
+                     isinstance(g, ast.Name) and g.id == v for g in x.args)
+                 and a.lineno < x.lineno <= end])
+            bad = [u for u in uses if not any(a.lineno < t <= u
+                                              for t in tests)]
+            rep.check(not bad, "R11.3", f.qualname, "the result of %s is "
+                      "tested before it is used" % src(a.value)[:50],
+                      construct="match-result-tested:%s" % v,
+                      where=L.where(f, bad[0] if bad else a.lineno),
+                      detail="used at line(s) %s without a test of %r" % (
+                          bad, v) if bad else "")
+    rep.count("match_results", n)
+    if n < 8:
+        raise AnalysisError("only %d regex match results found" % n)
 
 
 def _location(repo, rep):
